@@ -34,6 +34,10 @@ type flowStep struct {
 	Flow        int    `json:"flow,omitempty"`
 	User        int    `json:"user,omitempty"`
 	Unsolicited bool   `json:"unsolicited,omitempty"`
+	// start: the protected URL is requested with this method ("" GET) - a form submitted after the session ran out, say - and the
+	// browser says where it came from. The flow is tracked at the URL that was requested, whatever the method and the Referer.
+	Method  string `json:"method,omitempty"`
+	Referer string `json:"referer,omitempty"`
 	// Forged (answer): Mallory takes an assertion the IdP issued for no request (signed, no InResponseTo anywhere), strips the outer
 	// signature and writes the victim flow's request ID into the unsigned envelope
 	Forged bool `json:"forged_envelope,omitempty"`
@@ -48,8 +52,13 @@ type flowStep struct {
 
 var flowURLs = []string{"/page1", "/page2?x=1&y=%2F", "/deep/er/path", "/page1?again=1",
 	"/files/summary%3Fshare=public", "/%2Fevil.example/welcome", "/a%23b/c", "/p%25q?r=%26"}
-var jarPolicies = []string{"faithful", "faithful", "faithful", "faithful", "subset", "dup-under-other-name", "other-only", "none", "renamed", "swapped", "expired-kept", "forged", "session-as-tracking", "cross-browser"}
-var relayPolicies = []string{"echo", "echo", "echo", "echo", "other", "absent", "arbitrary"}
+var jarPolicies = []string{"faithful", "faithful", "faithful", "faithful", "subset", "dup-under-other-name", "other-only", "none", "renamed", "swapped", "expired-kept", "forged", "session-as-tracking", "cross-browser",
+	// everything the browser holds (so the response does answer a presented, authentic cookie) plus a cookie Mallory planted under a name of
+	// her own: right claims, her key, her landing page
+	"faithful-plus-planted", "faithful-plus-planted"}
+var relayPolicies = []string{"echo", "echo", "echo", "echo", "other", "absent", "arbitrary", "planted"}
+
+const plantedIndex = "zQplantedQz"
 
 func genFlows(g *Rng, tier string) *Plan {
 	k := flowKnobs{MaxIssueDelayMs: Pick(g, int64(7000), 90_000, 660_000), Browsers: 1 + g.Intn(2)}
@@ -73,7 +82,14 @@ func genFlows(g *Rng, tier string) *Plan {
 			if nflows >= 3 && g.Bool(0.7) {
 				continue
 			}
-			steps = append(steps, flowStep{Kind: "start", B: g.Intn(k.Browsers), SP: g.Intn(nd), URL: Pick(g, flowURLs...)})
+			st := flowStep{Kind: "start", B: g.Intn(k.Browsers), SP: g.Intn(nd), URL: Pick(g, flowURLs...)}
+			if g.Bool(0.25) {
+				st.Method = Pick(g, "POST", "POST", "PUT", "HEAD", "DELETE")
+			}
+			if g.Bool(0.3) {
+				st.Referer = Pick(g, "https://evil.example.com/form", "https://sp0.example.com/other-page", "/relative", "https://sp0.example.com.evil.example.com/")
+			}
+			steps = append(steps, st)
 			nflows++
 		case c == 1 || nresps == 0:
 			steps = append(steps, flowStep{Kind: "answer", Flow: g.Intn(nflows), User: g.Intn(4), Unsolicited: fault && g.Bool(0.2), Forged: fault && g.Bool(0.12)})
@@ -82,6 +98,9 @@ func genFlows(g *Rng, tier string) *Plan {
 			st := flowStep{Kind: "deliver", Resp: g.Intn(nresps), B: -1, Jar: "faithful", Relay: "echo", Other: g.Intn(nflows), Artifact: g.Bool(0.5)}
 			if fault {
 				st.Jar, st.Relay = Pick(g, jarPolicies...), Pick(g, relayPolicies...)
+				if st.Jar == "faithful-plus-planted" && g.Bool(0.7) {
+					st.Relay = "planted"
+				}
 				if g.Bool(0.15) {
 					st.B = g.Intn(k.Browsers) // deliver into a chosen browser instead of the flow's own
 				}
@@ -194,12 +213,24 @@ func execFlows(t *testing.T, p *Plan) *Result {
 			}
 			d, b := deploys[st.SP], browsers[st.B]
 			u, _ := url.Parse(d.base + st.URL)
-			rep := deliver(d.handler, "GET", u.String(), "", "", toHTTPCookies(b.cookiesFor(u, false)))
+			method, hdr, body, ct := "GET", http.Header{}, "", ""
+			if st.Method != "" {
+				method = st.Method
+				if method == "POST" || method == "PUT" {
+					body, ct = "field=value", formCT
+				}
+				res.probe("flow-started-by-" + method)
+			}
+			if st.Referer != "" {
+				hdr.Set("Referer", st.Referer)
+				res.probe("flow-started-with-referer")
+			}
+			rep := deliverH(d.handler, method, u.String(), body, ct, toHTTPCookies(b.cookiesFor(u, false)), hdr)
 			if rep.Panic != nil {
 				res.Excluded = "panic (reported under C09)"
 				return res
 			}
-			if rep.Code == 200 && rep.Body == "app ok" {
+			if rep.Code == 200 && (rep.Body == "app ok" || method == "HEAD") {
 				res.logf("step %d start b%d sp%d %s -> already authenticated", si, st.B, st.SP, st.URL)
 				continue // browser already has a session at this deployment
 			}
@@ -324,6 +355,8 @@ func execFlows(t *testing.T, p *Plan) *Result {
 				}
 			case "forged":
 				presented = []*http.Cookie{{Name: f.cookieName, Value: forge(d, f.index, f.reqID, "https://evil.example.com/")}}
+			case "faithful-plus-planted":
+				presented = append(toHTTPCookies(faithful), &http.Cookie{Name: "saml_" + plantedIndex, Value: forge(d, plantedIndex, f.reqID, "https://evil.example.com/welcome")})
 			case "session-as-tracking":
 				// the browser's session token re-filed under saml_<its subject>
 				if sc := b.find(d.sessionCookieName()); sc != nil {
@@ -347,6 +380,8 @@ func execFlows(t *testing.T, p *Plan) *Result {
 				}
 			case "arbitrary":
 				relay = "https://evil.example.com/landing"
+			case "planted":
+				relay = plantedIndex
 			}
 
 			// ---- oracle (statement + Appendix C17): which flows' authentic, unexpired tracking cookies are presented?
@@ -618,7 +653,7 @@ func simplifyFlows(p *Plan) []*Plan {
 func init() {
 	register(&Profile{
 		ID: "C17", Name: "flows", Level: "exploration",
-		Rule: "histories of 4-14 actions over {start flow at URL u (<=3 pending, 1-2 browsers, 1-2 deployments http/https, redirect/POST binding, custom relay-state function, RSA/ECDSA key), foreign IdP answers flow k for user x (or unsolicited), deliver response with jar policy in {faithful, subset, other-flow-only, none, renamed, swapped, expired-kept, forged, session-token-as-tracking-cookie, other browser's jar} and RelayState in {echoed, other flow's, absent, arbitrary URL}, replay, advance clock around the tracking lifetime (= MaxIssueDelay knob), visit protected page}; one run in five is fault-free; non-trivial = at least one delivery with an unfaithful jar/RelayState/browser or a replay; distinct = distinct abstract log; start URLs include percent-encoded structural characters in the path; targeted tails: (a) completed login, then an unsolicited response with the session token re-filed as a tracking cookie, (b) the ACS sees and refuses the tracking cookie early, the IdP answers after the lifetime and the stale cookie is still presented; clearing any tracking cookie other than the one named by the RelayState is a violation",
+		Rule: "histories of 4-14 actions over {start flow at URL u (<=3 pending, 1-2 browsers, 1-2 deployments http/https, redirect/POST binding, custom relay-state function, RSA/ECDSA key), foreign IdP answers flow k for user x (or unsolicited), deliver response with jar policy in {faithful, subset, other-flow-only, none, renamed, swapped, expired-kept, forged, session-token-as-tracking-cookie, other browser's jar, faithful plus a cookie planted under another name with a foreign key} and RelayState in {echoed, other flow's, absent, arbitrary URL, the planted cookie's index}, replay, advance clock around the tracking lifetime (= MaxIssueDelay knob), visit protected page}; one run in five is fault-free; non-trivial = at least one delivery with an unfaithful jar/RelayState/browser or a replay; distinct = distinct abstract log; start URLs include percent-encoded structural characters in the path; targeted tails: (a) completed login, then an unsolicited response with the session token re-filed as a tracking cookie, (b) the ACS sees and refuses the tracking cookie early, the IdP answers after the lifetime and the stale cookie is still presented; clearing any tracking cookie other than the one named by the RelayState is a violation",
 		Gen:  genFlows, Exec: execFlows, Simplify: simplifyFlows,
 		RunsQuick: 2500, RunsThorough: 250000,
 		Assumptions: []string{"a presented cookie is authentic for flow i iff it carries exactly the value the SP minted for flow i under exactly that name (harness bookkeeping, no token decoding in the oracle)", "tracking age within +-2 s of the lifetime is a declared don't-care (JWT instants are whole seconds)", "the sufficient direction (must accept) is asserted only for faithful jar + echoed RelayState in the originating browser, as the statement does", "tracking lifetime is taken from saml.MaxIssueDelay as drawn for the run, not from the tracker's own field"},
